@@ -978,16 +978,16 @@ fn blame_sections(r: &Req, c: &Cfg) -> Vec<&'static str> {
     let mut names: Vec<String> = r.headers.iter().map(|h| h.0.to_lowercase()).collect();
     names.sort(); names.dedup();
     let creq = real.canonical_request(&names);
-    let text = String::from_utf8_lossy(&creq).to_string();
-    let mut model_block = String::new();
+    let contains = |hay: &[u8], needle: &[u8]| needle.is_empty() || hay.windows(needle.len()).any(|w| w == needle);
+    let mut model_block: Vec<u8> = Vec::new();
     for nme in &names {
         let vals: Vec<Vec<u8>> = r.headers.iter().filter(|h| h.0.to_lowercase() == *nme).map(|h| collapse_trim(&hb(&h.1))).collect();
-        model_block.push_str(nme); model_block.push(':'); model_block.push_str(&String::from_utf8_lossy(&vals.join(&b','))); model_block.push('\n');
+        model_block.extend(nme.as_bytes()); model_block.push(b':'); model_block.extend(vals.join(&b',')); model_block.push(b'\n');
     }
-    model_block.push('\n'); model_block.push_str(&names.join(";")); model_block.push('\n');
-    if !text.contains(&model_block) { out.push("C11"); }
-    if !text.ends_with(&sha_hex(if folded { b"" } else { &r.body })) { out.push("C12"); out.push("C01"); }
-    if !text.starts_with(&format!("{}\n", r.method)) { out.push("C01"); }
+    model_block.push(b'\n'); model_block.extend(names.join(";").as_bytes()); model_block.push(b'\n');
+    if !contains(&creq, &model_block) { out.push("C11"); }
+    if !creq.ends_with(sha_hex(if folded { b"" } else { &r.body }).as_bytes()) { out.push("C12"); out.push("C01"); }
+    if !creq.starts_with(format!("{}\n", r.method).as_bytes()) { out.push("C01"); }
     out
 }
 /// does the model reach the key provider (rules 1-13 pass), and with which session token?
